@@ -45,6 +45,9 @@ def strategy():
         # churn: 0, or how many detach / re-attach cycles (components) and remove / re-add cycles (processors) the
         # world goes through before it is queried - the answers must not depend on how the state was reached
         'amp': worldops.size_amp(),
+        # late: 0, or a selector for one more component class and one more processor class that are defined only
+        # after every existing class has been used as a query type
+        'late': st.integers(0, 11).map(lambda k: k if k < 9 else 0),
     })
 
 
@@ -112,34 +115,106 @@ def run_case(case):
     multi_path = False
     w, rows, procs = build()
     for T in comp_classes:
-        # get(T)
-        got = q(w.get, T)
-        want = [(e, c) for (e, comps) in rows for c in comps if isinstance(c, T)]
-        if collections.Counter(id(c) for _e, c in got) != collections.Counter(id(c) for _e, c in want):
-            viol('get_reports_each_match_once', type=T.__name__, got=[repr(c) for _e, c in got],
-                 expected=[repr(c) for _e, c in want])
-        owner = {id(c): e for e, c in want}
-        for e, c in got:
-            if owner[id(c)] != e:
-                viol('get_reports_wrong_owner', type=T.__name__)
-        for (e, comps) in rows:
-            matches = [c for c in comps if isinstance(c, T)]
-            exact = [c for c in comps if type(c) is T]
-            for c in matches:
-                if npaths(type(c), T) >= 2:
-                    multi_path = True
-            if bool(q(w.has_component, e, T)) != bool(matches):
-                viol('has_component_matches_subclasses', type=T.__name__, entity=e, expected=bool(matches))
-            g = q(w.get_component, e, T, viol)
-            if exact:
-                ok = g is exact[0]
-            elif matches:
-                ok = any(g is m for m in matches)
-            else:
-                ok = g is viol
-            if not ok:
-                viol('get_component_prefers_exact_then_subclass', type=T.__name__, got=repr(g),
-                     exact=[repr(x) for x in exact], matches=[repr(m) for m in matches])
+        multi_path = component_queries(w, rows, T, q) or multi_path
+    for T in proc_classes:
+        multi_path = processor_queries(w, procs, T, q) or multi_path
+    removal_part(case, build, comp_classes, proc_classes, ents, n, q)
+    if case.get('late'):
+        # a class DEFINED after every existing class has been used as a query type (a plugin, a class factory):
+        # one more component class and one more processor class, instances attached, every query asked again
+        sel = case['late']
+        from vlib.classes import add_class
+        eff_c, eff_p = [[] for _ in comp_classes], [[] for _ in proc_classes]
+        newc = add_class(comp_classes, eff_c, {'bases': [sel, sel // 3], 'ev': (0, 3, 16, 32)[sel % 4]},
+                         root=RecBase, prefix='K', decorate=True)
+        newp = add_class(proc_classes, eff_p, {'bases': [sel, sel // 3], 'ev': 0}, root=ProcRoot, prefix='P',
+                         decorate=False)
+        inst = newc()
+        inst._log = sink
+        e0, comps0 = rows[sel % len(rows)]
+        if not any(type(c) is newc for c in comps0):
+            try:
+                w.add_component(e0, inst)
+            except Exception as exc:
+                viol('add_component_raised', exception=repr(exc))
+            comps0.append(inst)
+        pinst = newp()
+        try:
+            w.add_processor(pinst)
+        except Exception as exc:
+            viol('add_processor_raised', exception=repr(exc))
+        procs.append(pinst)
+        for T in comp_classes:
+            component_queries(w, rows, T, q)
+        for T in proc_classes:
+            processor_queries(w, procs, T, q)
+    multi_base = any(len([b for b in c.__bases__ if b is not RecBase]) >= 2 for c in comp_classes)
+    classes = []
+    if multi_base:
+        classes.append('multiple_inheritance')
+    if multi_path:
+        classes.append('match_through_two_paths')
+    if len(ptypes) >= 2:
+        classes.append('two_or_more_processors')
+    if case.get('amp'):
+        classes.append('churned_before_the_queries')
+    if case.get('late'):
+        classes.append('class_defined_after_the_first_queries')
+    return {'nontrivial': multi_base and multi_path, 'classes': classes}
+
+
+def component_queries(w, rows, T, q):
+    multi_path = False
+    got = q(w.get, T)
+    want = [(e, c) for (e, comps) in rows for c in comps if isinstance(c, T)]
+    if collections.Counter(id(c) for _e, c in got) != collections.Counter(id(c) for _e, c in want):
+        viol('get_reports_each_match_once', type=T.__name__, got=[repr(c) for _e, c in got],
+             expected=[repr(c) for _e, c in want])
+    owner = {id(c): e for e, c in want}
+    for e, c in got:
+        if owner[id(c)] != e:
+            viol('get_reports_wrong_owner', type=T.__name__)
+    for (e, comps) in rows:
+        matches = [c for c in comps if isinstance(c, T)]
+        exact = [c for c in comps if type(c) is T]
+        for c in matches:
+            if npaths(type(c), T) >= 2:
+                multi_path = True
+        if bool(q(w.has_component, e, T)) != bool(matches):
+            viol('has_component_matches_subclasses', type=T.__name__, entity=e, expected=bool(matches))
+        g = q(w.get_component, e, T, viol)
+        if exact:
+            ok = g is exact[0]
+        elif matches:
+            ok = any(g is m for m in matches)
+        else:
+            ok = g is viol
+        if not ok:
+            viol('get_component_prefers_exact_then_subclass', type=T.__name__, got=repr(g),
+                 exact=[repr(x) for x in exact], matches=[repr(m) for m in matches])
+    return multi_path
+
+
+def processor_queries(w, procs, T, q):
+    multi_path = False
+    matches = [p for p in procs if isinstance(p, T)]
+    exact = [p for p in procs if type(p) is T]
+    for p in matches:
+        if npaths(type(p), T) >= 2:
+            multi_path = True
+    g = q(w.get_processor, T)
+    if exact:
+        ok = g is exact[0]
+    elif matches:
+        ok = any(g is m for m in matches)
+    else:
+        ok = g is None
+    if not ok:
+        viol('get_processor_prefers_exact_then_subclass', type=T.__name__, got=repr(g))
+    return multi_path
+
+
+def removal_part(case, build, comp_classes, proc_classes, ents, n, q):
     # remove_component on rebuilt worlds
     for ti in range(n):
         for ei in range(len(ents)):
@@ -176,21 +251,6 @@ def run_case(case):
                 if collections.Counter(id(c) for _e, c in got) != collections.Counter(map(id, want)):
                     viol('get_after_remove_component', removed=repr(r), type=T2.__name__)
     # processors
-    for T in proc_classes:
-        matches = [p for p in procs if isinstance(p, T)]
-        exact = [p for p in procs if type(p) is T]
-        for p in matches:
-            if npaths(type(p), T) >= 2:
-                multi_path = True
-        g = q(w.get_processor, T)
-        if exact:
-            ok = g is exact[0]
-        elif matches:
-            ok = any(g is m for m in matches)
-        else:
-            ok = g is None
-        if not ok:
-            viol('get_processor_prefers_exact_then_subclass', type=T.__name__, got=repr(g))
     for ti in range(n):
         w2, _rows2, procs2 = build()
         T = proc_classes[ti]
@@ -232,15 +292,3 @@ def run_case(case):
                 ok = (g is ex2[0]) if ex2 else (any(g is m for m in m2) if m2 else g is None)
                 if not ok:
                     viol('get_processor_after_replacement', type=T2.__name__, got=repr(g))
-
-    multi_base = any(len([b for b in c.__bases__ if b is not RecBase]) >= 2 for c in comp_classes)
-    classes = []
-    if multi_base:
-        classes.append('multiple_inheritance')
-    if multi_path:
-        classes.append('match_through_two_paths')
-    if len(ptypes) >= 2:
-        classes.append('two_or_more_processors')
-    if case.get('amp'):
-        classes.append('churned_before_the_queries')
-    return {'nontrivial': multi_base and multi_path, 'classes': classes}
